@@ -434,6 +434,7 @@ class _G:
         # allocators and caches change strategy (kilobytes to a megabyte);
         # everything else stays tiny
         self.focus = None
+        self.prefer_symbolic = False
         self.bulk = profile == "any" and rng.random() < 0.15
         self.max_size = (1 << 17) if self.bulk else 96
 
@@ -563,6 +564,11 @@ class _G:
             kinds += [self.focus] * 14
         k = rng.choice(kinds)
         a = self.pick()
+        if a is not None and self.prefer_symbolic and rng.random() < 0.7:
+            a2 = self.pick(lambda v: any(
+                not isinstance(sh, (int, np.integer)) for sh in v.shape))
+            if a2 is not None:
+                a = a2
         if a is None:
             return self.leaf()
         va = self.vals[a]
@@ -704,6 +710,12 @@ class _G:
                     n = int(va.shape[ax])
                 except Exception:  # noqa: BLE001
                     n = 3
+                    if rng.random() < 0.7:
+                        # a symbolic axis: open-ended slices, whose normalised
+                        # bounds are array expressions over the size parameter
+                        idx.append(["s", rng.choice([None, None, 0, 1]), None,
+                                    rng.choice([1, 1, 2, -1, 3])])
+                        continue
                 q = rng.random()
                 if q < 0.3 and n > 0:
                     idx.append(["i", rng.randrange(-n, n)])
@@ -873,8 +885,20 @@ def gen_recipe(rng: random.Random, profile="any", nsteps=None) -> dict:
     g = _G(rng, profile)
     if rng.random() < 0.3:
         g.focus = rng.choice(["loopy", "loopy", "call", "csr", "einsum",
-                              "advidx", "named", "stack", "concatenate"]
+                              "advidx", "named", "stack", "concatenate",
+                              "symidx"]
                              + (["send", "recv"] if profile == "any" else []))
+        if g.focus == "symidx":
+            # indexing into arrays with symbolic shapes: slices whose bounds
+            # are array expressions over size parameters
+            g.focus = "index"
+            g.prefer_symbolic = True
+            g.nph += 1
+            g.nsz += 1
+            g.try_step({"op": "sizeph", "args": [], "p": {
+                "name": f"p{g.nph}", "size_name": f"n{g.nsz}",
+                "shape": rng.choice([["n"], ["n", 3], [2, "n"], ["n+1"]]),
+                "dtype": "float64"}})
         if g.focus == "loopy":
             # loopy calls need a 1-d float64 operand
             g.nph += 1
